@@ -35,13 +35,26 @@ fn rule_pool() -> Vec<(&'static str, &'static str)> {
         ("call_c_none", "[c(x.zz), n(none)]"),
         ("nested", "{a: x, b: [c(i2), :s]}"),
         ("call_c_dec", "c(d1)"),
+        ("call_c_m1", "c(m1)"),
+        ("call_c_m2", "c(m2)"),
+        ("call_c_field_s", "c(s)"),
+        ("call_c_symbol_s", "[c(:s), n(:s)]"),
         ("call_c_similar", "[c(d1.0), c(f0.0), c(f-0.0), c(i1)]"),
     ]
 }
 
 fn inputs() -> Vec<(&'static str, RV)> {
     vec![
-        ("map", RV::map(&[("x", RV::map(&[("y", RV::Int(5))]))])),
+        (
+            "map",
+            RV::map(&[
+                ("x", RV::map(&[("y", RV::Int(5))])),
+                // two different maps that coincide under an unquoted rendering; a field named like a symbol
+                ("m1", RV::map(&[("a", RV::Int(1)), ("b", RV::Int(2))])),
+                ("m2", RV::map(&[("a: i1, b", RV::Int(2))])),
+                ("s", RV::Str("field-s".into())),
+            ]),
+        ),
         ("map-without-fields", RV::map(&[("other", RV::Int(1))])),
         ("none", RV::None),
         ("non-map", RV::Int(5)),
